@@ -789,6 +789,109 @@ EmitCase ==
     Emit => /\ PrintT("@@CASE " \o ToJson(CaseOf(c)) \o " @@END")
             /\ (c = Cfg("Normal", 1, 1, 1, 1, 1, 0) => PrintT("@@CASE " \o ToJson(TableCase) \o " @@END"))
 
+\* ---------------------------------------------------------------------------
+\* Reassign: ONE object, its parameters replaced one after another through the public attributes / property setters
+\* ---------------------------------------------------------------------------
+\* The documented density is a function of the CURRENT parameters of the object.  Everything an object derives from its
+\* parameters (normalising constant, log-determinant, rank, square-root precision, covariance, frozen base generators ...)
+\* may be computed lazily and kept, but must never outlive the parameters it was computed from.  Behavioural part of this
+\* module (configurations Families.reassign.*.cfg: INIT ReInit, NEXT ReNext):
+\*     state   c = a configuration k1 of the lattice  @@  [re |-> [tgt, done, cached]]
+\*               tgt    parameter pattern indices of a second configuration k2 of the same family, dimension, operator
+\*               done   the assignment units carried out so far, in order (a unit = the public attributes that one
+\*                      pattern index determines: Normal mean <- a, std <- b; Uniform: low and high <- a, high <- b;
+\*                      Gaussian / Lognormal: the matrix-valued input <- (b, g) ...)
+\*               cached <<>> or <<configuration the object's derived quantities were last computed from>>
+\*     ReEvaluate   any observable is evaluated: derived quantities are (re)computed from the current parameters
+\*     ReAssign(u)  unit u is assigned: the parameters change and everything derived from the old ones is dropped
+\* ReassignIsFresh: in every reachable state the object answers (log-density, gradient, cdf) like a freshly built object with
+\* its current parameters.  Named deviation StaleCacheAfterAssign (NEXT ReNextStale, Families.reassign_stale.deviation.cfg):
+\* an assignment keeps what was derived before - TLC must refute ReassignIsFresh (Evaluate . Assign).
+\* ReEmit: every terminal state (all units assigned) emits the start case, the order of the units and, after EVERY
+\* assignment of the order, the complete expected case of the mixed configuration (partial reassignment = prefixes; all
+\* orders = all permutations).  The replay realises the behaviours  A* E  (assign first, evaluate later),  E A* E  and
+\* (E A)* E  of this state graph on one real object.
+ReIdx == {"a", "b", "g"}
+ReU(names, idx) == [names |-> names, idx |-> idx]
+ReUnits(fam) ==
+    CASE fam = "Normal"                           -> <<ReU(<<"mean">>, {"a"}), ReU(<<"std">>, {"b"})>>
+      [] fam \in {"Laplace", "Cauchy", "LMRF", "CMRF"} -> <<ReU(<<"location">>, {"a"}), ReU(<<"scale">>, {"b"})>>
+      [] fam = "SmoothedLaplace"                  -> <<ReU(<<"location">>, {"a"}), ReU(<<"scale">>, {"b"}), ReU(<<"beta">>, {"g"})>>
+      [] fam = "Gamma"                            -> <<ReU(<<"shape">>, {"a"}), ReU(<<"rate">>, {"b"})>>
+      [] fam = "InverseGamma"                     -> <<ReU(<<"shape">>, {"a"}), ReU(<<"location">>, {"b"}), ReU(<<"scale">>, {"g"})>>
+      [] fam = "Beta"                             -> <<ReU(<<"alpha">>, {"a"}), ReU(<<"beta">>, {"b"})>>
+      [] fam = "Uniform"                          -> <<ReU(<<"low", "high">>, {"a"}), ReU(<<"high">>, {"b"})>>     \* high = low + width
+      [] fam = "Lognormal"                        -> <<ReU(<<"mean">>, {"a"}), ReU(<<"cov">>, {"b", "g"})>>
+      [] fam = "Gaussian"                         -> <<ReU(<<"mean">>, {"a"}), ReU(<<"matrix">>, {"b", "g"})>>    \* matrix = the attribute of the input form
+      [] fam = "GMRF"                             -> <<ReU(<<"mean">>, {"a"}), ReU(<<"prec">>, {"b"})>>
+      [] OTHER                                    -> <<>>       \* ModifiedHalfNormal: getters are finding C04-F6; GaussianBig, Lik: not objects of this part
+ReFamilies == {f \in Families_ : Len(ReUnits(f)) > 0}
+
+ReBase(s) == [fam |-> s.fam, dim |-> s.dim, a |-> s.a, b |-> s.b, g |-> s.g, x |-> s.x, o |-> s.o,
+              bc |-> s.bc, ord |-> s.ord, wm |-> s.wm, pd |-> s.pd]
+ReMix(k, tgt, S) == [k EXCEPT !.a = IF "a" \in S THEN tgt.a ELSE @, !.b = IF "b" \in S THEN tgt.b ELSE @,
+                              !.g = IF "g" \in S THEN tgt.g ELSE @]
+\* the second configuration: in every pattern index the cyclic successor among the values the lattice of this family uses
+ReSame(k, q) == q.dim = k.dim /\ q.pd = k.pd /\ q.bc = k.bc /\ q.ord = k.ord /\ q.wm = k.wm
+ReVals(FC, k, i) == {q[i] : q \in {r \in FC : ReSame(k, r)}}
+ReNextIn(S, v) == IF \E w \in S : w > v THEN CHOOSE w \in S : w > v /\ \A y \in S : y > v => w <= y
+                  ELSE CHOOSE w \in S : \A y \in S : w <= y
+ReMaxIn(S) == CHOOSE w \in S : \A y \in S : y <= w
+ReMinIn(S) == CHOOSE w \in S : \A y \in S : w <= y
+ReTarget(FC, k) == [i \in ReIdx |-> ReNextIn(ReVals(FC, k, i), k[i])]
+\* start configurations: the genuinely vector-valued evaluation pattern (thorough: also the first constant one); three-unit
+\* families inside the support only; Markov random fields on the small grids with the first and the last location pattern
+ReSelect(FC, k) ==
+    /\ k.x \in ({ReMaxIn(ReVals(FC, k, "x"))} \cup (IF Thorough THEN {ReMinIn(ReVals(FC, k, "x"))} ELSE {}))
+    /\ (Len(ReUnits(k.fam)) = 3 => k.o = 0)
+    /\ (k.fam \in {"GMRF", "LMRF", "CMRF"} =>
+          /\ MrfDim(k.pd, k.dim) <= (IF Thorough THEN 5 ELSE 4)
+          /\ k.a \in {ReMinIn(ReVals(FC, k, "a")), ReMaxIn(ReVals(FC, k, "a"))})
+ReAllValid(k, tgt) == \A S \in SUBSET ReIdx : Valid(ReMix(k, tgt, S))
+ReStates(fam) ==
+    LET FC == FamConfigs(fam)
+    IN { k @@ [re |-> [tgt |-> ReTarget(FC, k), done |-> <<>>, cached |-> <<>>]] :
+           k \in {q \in FC : Valid(q) /\ ReSelect(FC, q) /\ ReAllValid(q, ReTarget(FC, q))} }
+
+ReDoneSet(s) == {s.re.done[j] : j \in 1..Len(s.re.done)}
+ReAssignedIdx(s, n) == UNION {ReUnits(s.fam)[s.re.done[j]].idx : j \in 1..n}       \* indices replaced by the first n assignments
+ReCfgAfter(s, n) == ReMix(ReBase(s), s.re.tgt, ReAssignedIdx(s, n))
+ReCur(s) == ReCfgAfter(s, Len(s.re.done))
+
+ReEvaluate ==
+    /\ c.re.cached = <<>>
+    /\ c' = [c EXCEPT !.re.cached = <<ReCur(c)>>]
+ReAssign(u) ==
+    /\ u \notin ReDoneSet(c)
+    /\ c' = [c EXCEPT !.re.done = Append(@, u), !.re.cached = <<>>]
+ReAssignStale(u) ==                               \* named deviation StaleCacheAfterAssign
+    /\ u \notin ReDoneSet(c)
+    /\ c' = [c EXCEPT !.re.done = Append(@, u)]
+ReInit      == c \in UNION {ReStates(f) : f \in Fams \cap ReFamilies}
+ReNext      == ReEvaluate \/ \E u \in 1..Len(ReUnits(c.fam)) : ReAssign(u)
+ReNextStale == ReEvaluate \/ \E u \in 1..Len(ReUnits(c.fam)) : ReAssignStale(u)
+
+\* what the object answers is computed from c.re.cached where something is cached, from the current parameters otherwise
+ReassignIsFresh ==
+    LET cur == ReCur(c)
+    IN (c.re.cached # <<>> /\ c.re.cached[1] # cur) =>
+         LET A == CaseOf(c.re.cached[1])  B == CaseOf(cur)
+         IN A.logpdf = B.logpdf /\ A.grad = B.grad /\ A.cdf = B.cdf
+\* the second configuration is a different distribution (non-vacuity of the facet): all units assigned => another density value
+\* or another evaluation point
+ReTargetDiffers ==
+    Len(c.re.done) = Len(ReUnits(c.fam)) =>
+         LET A == CaseOf(ReBase(c))  B == CaseOf(ReCur(c)) IN A.logpdf # B.logpdf \/ A.x # B.x \/ A.par # B.par
+
+ReEmit ==
+    (Emit /\ Len(c.re.done) = Len(ReUnits(c.fam)) /\ c.re.cached = <<>>) =>
+        PrintT("@@CASE " \o ToJson(
+            [kind |-> "reassign", fam |-> c.fam, cfg |-> ReBase(c), tgt |-> c.re.tgt, order |-> c.re.done,
+             from |-> CaseOf(ReBase(c)),
+             trail |-> [n \in 1..Len(c.re.done) |->
+                          [unit |-> c.re.done[n], assign |-> ReUnits(c.fam)[c.re.done[n]].names,
+                           expect |-> CaseOf(ReCfgAfter(c, n))]]]) \o " @@END")
+
 Init == c \in {k \in Configs : Valid(k)}
 Next == UNCHANGED c
 Spec == Init /\ [][Next]_c
